@@ -35,6 +35,7 @@ def gen(rng, tier):
                 nestc += [trees.fsdir(dd), trees.fsfile(dd + b"/override.conf", b"secret=policy-only\n[policy]\nleak=1\n"),
                           trees.fsfile(dd + b"/zz.conf", b"secret2=policy-only\n")]
             nestc.append("cbnest %s %s %s %s" % (enc(b"/pol/usr"), enc(b"/pol/etc"), enc(b"policy"), enc(b"conf")))
+        if rng.random() < 0.2: nestc = nestc + [rng.choice(["perms", "perms 400 100", "sec 0 - 0", "sec 0 0 0"])]      # requirements every file of the tree meets: the callback is asked all the same
         cmds = st["cmds"] + st["pre"] + nestc + [pol, st["read"], "dump 0"]
         obs = [False] * (len(st["cmds"]) + len(st["pre"]) + len(nestc) + 1) + [True, True]
         if st["hist"]:
